@@ -1,12 +1,13 @@
 #!/bin/bash
-# usage: benigncheck.sh <dir with patchN.diff> <ID>...  — applies each behaviour-preserving patch to /repo, runs the checks (must stay silent), reverts.
+# usage: benigncheck.sh <dir with patchN.diff> <ID>...  — applies each behaviour-preserving patch to a scratch
+# worktree of /repo HEAD (not to /repo), runs the checks there (they must stay silent), and removes the worktree.
 D=$1; shift
-cd /repo || exit 2
-if [ -n "$(git status --short)" ]; then echo "/repo not clean"; exit 2; fi
+W=/tmp/bcwt-$$
+git -C /repo worktree add -q --detach $W HEAD || exit 2
 for P in $D/patch*.diff; do
-  git apply "$P" || { echo "$P does not apply"; continue; }
+  (cd $W && git apply "$P") || { echo "$P does not apply"; continue; }
   echo "== $(basename $P)"
-  (cd /verif; for id in "$@"; do ./run check $id -q --verif /tmp/seedcheck-verif 2>&1 | grep -v '^VIOLATION property' | cut -c1-700; done)
-  git checkout -- . ; git clean -fdq -- lib utils agent origin tracker build-index core proxy 2>/dev/null
+  (cd /verif; for id in "$@"; do ./run check $id -q --repo $W --verif /tmp/seedcheck-verif 2>&1 | grep -v '^VIOLATION property' | cut -c1-700; done)
+  (cd $W && git checkout -q -- . && git clean -fdq)
 done
-git status --short
+git -C /repo worktree remove --force $W
